@@ -2,11 +2,47 @@
 
 use crate::engine::Sut;
 use crate::infra::*;
-use crate::mpmc::{take_drops, Tag};
+use crate::mpmc::{log_drop, take_drops, Tag};
 use futures_intrusive::buffer::RingBuf;
 use serde_json::{json, Map, Value};
 
-pub struct RingSut<B: RingBuf<Item = Tag>> {
+/// Element types the buffers are exercised with: `Tag` carries its identity; `ZTag` is zero-sized (the
+/// harness keeps the identities in a shadow FIFO, its destructor logs id 0).
+pub trait Elem: Sized {
+    fn make(v: u32) -> Self;
+    /// Consumes the element without running its destructor; its identity if it has one.
+    fn take_id(self) -> Option<u32>;
+}
+impl Elem for Tag {
+    fn make(v: u32) -> Self {
+        Tag(v)
+    }
+    fn take_id(self) -> Option<u32> {
+        let id = self.0;
+        std::mem::forget(self);
+        Some(id)
+    }
+}
+pub struct ZTag;
+impl Drop for ZTag {
+    fn drop(&mut self) {
+        log_drop(0);
+    }
+}
+impl Elem for ZTag {
+    fn make(_v: u32) -> Self {
+        ZTag
+    }
+    fn take_id(self) -> Option<u32> {
+        std::mem::forget(self);
+        None
+    }
+}
+
+pub struct RingSut<B: RingBuf>
+where
+    B::Item: Elem,
+{
     buf: Option<B>,
     indices: fn(&B) -> Option<(usize, usize, usize)>,
     growing: bool,
@@ -15,7 +51,10 @@ pub struct RingSut<B: RingBuf<Item = Tag>> {
     contents: Vec<u32>,
 }
 
-impl<B: RingBuf<Item = Tag>> RingSut<B> {
+impl<B: RingBuf> RingSut<B>
+where
+    B::Item: Elem,
+{
     pub fn new(consts: &Value, indices: fn(&B) -> Option<(usize, usize, usize)>, growing: bool) -> Self {
         let cap = consts["Cap"].as_u64().unwrap_or(2) as usize;
         take_drops();
@@ -30,14 +69,20 @@ impl<B: RingBuf<Item = Tag>> RingSut<B> {
     }
 }
 
-impl<B: RingBuf<Item = Tag>> Drop for RingSut<B> {
+impl<B: RingBuf> Drop for RingSut<B>
+where
+    B::Item: Elem,
+{
     fn drop(&mut self) {
         self.buf.take();
         take_drops();
     }
 }
 
-impl<B: RingBuf<Item = Tag>> Sut for RingSut<B> {
+impl<B: RingBuf> Sut for RingSut<B>
+where
+    B::Item: Elem,
+{
     fn apply(&mut self, e: &Value) -> Option<Value> {
         let op = e["op"].as_str()?;
         take_drops();
@@ -48,7 +93,7 @@ impl<B: RingBuf<Item = Tag>> Sut for RingSut<B> {
                 if !b.can_push() {
                     return None;
                 }
-                match lib(|| b.push(Tag(v))) {
+                match lib(|| b.push(<B::Item as Elem>::make(v))) {
                     Ok(()) => {
                         self.contents.push(v);
                         json!({"op": op, "v": v})
@@ -63,8 +108,8 @@ impl<B: RingBuf<Item = Tag>> Sut for RingSut<B> {
                 }
                 match lib(|| b.pop()) {
                     Ok(t) => {
-                        let id = t.0;
-                        std::mem::forget(t);
+                        // elements without identity leave in the order the shadow FIFO says
+                        let id = t.take_id().or(self.contents.first().copied()).unwrap_or(0);
                         self.contents.retain(|x| *x != id);
                         json!({"op": op, "res": "ok", "v": id})
                     }
@@ -74,7 +119,8 @@ impl<B: RingBuf<Item = Tag>> Sut for RingSut<B> {
             "query" => {
                 let b = self.buf.as_ref()?;
                 match lib(|| (b.len(), b.is_empty(), b.can_push(), b.capacity())) {
-                    Ok((l, e, c, cap)) => json!({"op": op, "len": l, "empty": e, "canpush": c, "cap": cap}),
+                    // (TLC integers are 32 bit: absurd capacities are reported as 2e9)
+                    Ok((l, e, c, cap)) => json!({"op": op, "len": l.min(2_000_000_000), "empty": e, "canpush": c, "cap": cap.min(2_000_000_000)}),
                     Err(_) => json!({"op": op, "res": "panic"}),
                 }
             }
@@ -87,7 +133,14 @@ impl<B: RingBuf<Item = Tag>> Sut for RingSut<B> {
             }
             _ => return None,
         };
-        out["dropped"] = json!(take_drops());
+        // destructors of identity-less elements log 0: they stand for the oldest shadow entries
+        let mut dr = take_drops();
+        for d in dr.iter_mut() {
+            if *d == 0 && !self.contents.is_empty() {
+                *d = self.contents.remove(0);
+            }
+        }
+        out["dropped"] = json!(dr);
         Some(out)
     }
 
